@@ -82,7 +82,11 @@ def run(prop, tier, jobs, log, timeout_s=None):
             r['status'] = 'violated'
             rep = h.get('replay')
             label = 'kani harness %s: %s' % (h['name'], '; '.join(str(x)[:160] for x in (h.get('failed_checks') or [])[:3]) or h.get('detail', ''))
-            status = 'reproduced' if rep == 'reproduced' else ('not_reproduced' if rep == 'not_reproduced' else 'unavailable')
+            # CBMC's verdict on the compiled real code is the deciding step; the concrete playback is a convenience.  run.py
+            # replays the first generated playback test, which can be the test of a cover property rather than of the
+            # failed assertion ("Not enough det vals found"), so a failed native replay does not refute the verdict:
+            # such counterexamples are reported like engine M's function-level ones (solver counterexample)
+            status = 'reproduced' if rep == 'reproduced' else 'solver_only'
             r['violations'].append({'label': label, 'replayed': status, 'replay_path': h.get('cex_file') or h.get('log', ''),
                                     'replay_detail': 'kani concrete playback: %s' % rep, 'model': {'cex_values': h.get('cex_values')}})
         else:
